@@ -309,6 +309,12 @@ func parseRaces(stderr string) []RaceReport {
 					if len(rr.TopFrames) < 40 {
 						rr.TopFrames = append(rr.TopFrames, fn)
 					}
+					if needAccessor && strings.HasPrefix(fn, "runtime.") && !runtimeMemHelper(fn) {
+						// the access is made by the runtime for itself (e.g. its metrics tables), not on behalf of the
+						// caller; frames above it may be stale, because the harness is not instrumented
+						needAccessor = false
+						rr.Accessors = append(rr.Accessors, fn)
+					}
 					if needAccessor && !strings.HasPrefix(fn, "runtime.") {
 						needAccessor = false
 						rr.Accessors = append(rr.Accessors, fn)
@@ -322,6 +328,19 @@ func parseRaces(stderr string) []RaceReport {
 		out = append(out, rr)
 	}
 	return out
+}
+
+// runtimeMemHelper: runtime functions that touch memory on behalf of their caller (map, slice, string, copy helpers).
+func runtimeMemHelper(fn string) bool {
+	for _, p := range []string{"runtime.map", "runtime.growslice", "runtime.slicecopy", "runtime.memmove", "runtime.typedmemmove",
+		"runtime.typedslicecopy", "runtime.makeslice", "runtime.slicebytetostring", "runtime.stringtoslicebyte", "runtime.concatstring",
+		"runtime.memclr", "runtime.memequal", "runtime.strequal", "runtime.efaceeq", "runtime.ifaceeq", "runtime.racewrite", "runtime.raceread",
+		"runtime.typedmemclr", "runtime.wbMove", "runtime.bulkBarrierPreWrite", "runtime.unsafeslice", "runtime.unsafestring"} {
+		if strings.HasPrefix(fn, p) {
+			return true
+		}
+	}
+	return false
 }
 
 func isFrugalFn(fn string) bool {
